@@ -22,10 +22,10 @@ import (
 // C13 — Shutdown stops every listener and closes every channel, whenever it is called.
 
 type C13Step struct {
-	Op   string `json:"op"` // listen | async | sync | connect | inbound | closechan | peerclose | lclose | shutdown | release
+	Op   string `json:"op"` // listen | async | sync | connect | inbound | closechan | peerclose | lclose | shutdown | release | acceptrelease | stallwrite
 	I    int    `json:"i,omitempty"`
 	Hold bool   `json:"hold,omitempty"` // executor actions submitted during this step are held until released
-	Slow bool   `json:"slow,omitempty"` // async/sync: the factory's Listen parks until an "open" step (or the end)
+	Slow bool   `json:"slow,omitempty"` // async/sync: the factory's Listen parks until an "open" step (or the end); inbound: Accept has taken the connection but returns it only at an "acceptrelease" step (or the end)
 }
 
 type C13Case struct {
@@ -98,6 +98,7 @@ type c13Chan struct {
 	active   int
 	inactive int
 	order    []string
+	stalled  bool
 }
 
 type c13Listener struct {
@@ -124,9 +125,9 @@ func genC13(t *rapid.T) C13Case {
 		after := i > shutdownAt
 		var ops []string
 		if after {
-			ops = []string{"release", "release", "inbound", "open"}
+			ops = []string{"release", "release", "inbound", "open", "acceptrelease", "acceptrelease"}
 		} else {
-			ops = []string{"listen", "listen", "inbound", "inbound", "connect", "closechan", "peerclose", "lclose", "release", "open", "cancelparent"}
+			ops = []string{"listen", "listen", "inbound", "inbound", "connect", "closechan", "peerclose", "lclose", "release", "open", "cancelparent", "acceptrelease", "stallwrite"}
 			if nl >= 3 {
 				ops = ops[2:]
 			}
@@ -140,6 +141,7 @@ func genC13(t *rapid.T) C13Case {
 			st.Slow = st.Op != "listen" && rapid.IntRange(0, 3).Draw(t, "slow") == 0
 		case "connect", "inbound":
 			st.Hold = rapid.IntRange(0, 2).Draw(t, "hold") == 0
+			st.Slow = st.Op == "inbound" && !after && rapid.IntRange(0, 2).Draw(t, "slowaccept") == 0
 		}
 		c.Steps = append(c.Steps, st)
 	}
@@ -204,14 +206,23 @@ func runC13(c C13Case) (out core.Outcome) {
 	bs := netty.NewBootstrap(opts...)
 
 	var listeners []*c13Listener
+	shutdownDone := false
 	settle := func(what string) bool {
 		if !tracker.WaitIdle(10 * time.Second) {
+			// nothing has moved for 10 s. A goroutine that sits in a lock or channel operation inside the framework
+			// (not in one of the mocks, which report their parking) will never move again: that is a hang, not slowness
+			if blocked := blockedInFramework(); blocked != "" && shutdownDone {
+				time.Sleep(500 * time.Millisecond)
+				if again := blockedInFramework(); again != "" {
+					out.Violation = core.Viol("C13/shutdown-blocked", "after %s nothing moves any more and a goroutine is blocked inside the framework, so Shutdown never completes and channels stay open:\n%s", what, again)
+					return false
+				}
+			}
 			out.Inconclusive = fmt.Sprintf("after %s: %d goroutines still running after 10 s", what, tracker.Busy())
 			return false
 		}
 		return true
 	}
-	shutdownDone := false
 	overlapLate, overlapAccepted := false, false
 	for si, st := range c.Steps {
 		ex.mu.Lock()
@@ -274,8 +285,47 @@ func runC13(c C13Case) (out core.Outcome) {
 				continue
 			}
 			a := accs[st.I%len(accs)]
-			if a.Hand(newT()) {
+			if st.Slow {
+				if a.HandSlow(newT()) {
+					cls.Add("inbound-handed")
+					cls.Add("accept-in-flight")
+				}
+			} else if a.Hand(newT()) {
 				cls.Add("inbound-handed")
+			}
+		case "stallwrite":
+			// a synchronous write is blocked in the transport (the peer has stopped reading) when Shutdown comes.
+			// Only on synchronous channels: a channel created to wait for pending writes waits for its sender by design (C06)
+			if c.Queue > 0 || shutdownDone {
+				continue
+			}
+			mu.Lock()
+			var cc *c13Chan
+			for _, x := range chans {
+				if x.active > 0 && x.inactive == 0 && !x.stalled {
+					cc = x
+					break
+				}
+			}
+			if cc != nil {
+				cc.stalled = true
+			}
+			mu.Unlock()
+			if cc == nil {
+				continue
+			}
+			cc.tr.SetStall(true)
+			cls.Add("write-blocked-in-transport")
+			tracker.Go(func() { _ = cc.ch.Write([]byte("the peer does not read this")) })
+		case "acceptrelease":
+			for _, a := range factory.AcceptorsCopy() {
+				if a.ReleaseAccept() {
+					if shutdownDone {
+						cls.Add("overlap:accept-returned-a-connection-after-shutdown")
+						overlapAccepted = true
+					}
+					break
+				}
 			}
 		case "closechan", "peerclose":
 			// only channels that were handed out (activation done): nobody else holds the others yet
@@ -352,6 +402,15 @@ func runC13(c C13Case) (out core.Outcome) {
 	// every action handed to the executor eventually runs, every Listen eventually returns
 	for {
 		progressed := ex.release(0)
+		for _, a := range factory.AcceptorsCopy() {
+			if a.ReleaseAccept() {
+				progressed = true
+				if shutdownDone {
+					cls.Add("overlap:accept-returned-a-connection-after-shutdown")
+					overlapAccepted = true
+				}
+			}
+		}
 		if urls := factory.GatedURLs(); len(urls) > 0 {
 			sort.Strings(urls)
 			factory.OpenGate(urls[0])
@@ -392,6 +451,14 @@ func runC13(c C13Case) (out core.Outcome) {
 			return
 		}
 	}
+	for i, a := range factory.AcceptorsCopy() {
+		for k, t := range a.AcceptedCopy() {
+			if mt, ok := t.(*mock.Transport); ok && mt.CloseCount() != 1 {
+				out.Violation = core.Viol("C13/accepted-connection-left-open", "acceptor %d (%s): connection %d was returned by Accept but its transport was closed %d times: a connection accepted around Shutdown is left open", i, a.URL, k, mt.CloseCount())
+				return
+			}
+		}
+	}
 	mu.Lock()
 	defer mu.Unlock()
 	for i, l := range listeners {
@@ -429,6 +496,42 @@ func runC13(c C13Case) (out core.Outcome) {
 		cls.Add("channels")
 	}
 	return
+}
+
+// blockedInFramework returns the stack of a goroutine that is blocked in a lock or channel operation with a
+// go-netty frame on top of any harness frame ("" if there is none).
+func blockedInFramework() string {
+	buf := make([]byte, 1<<20)
+	buf = buf[:runtime.Stack(buf, true)]
+	for _, g := range strings.Split(string(buf), "\n\n") {
+		head, rest, ok := strings.Cut(g, "\n")
+		if !ok {
+			continue
+		}
+		blocked := false
+		for _, st := range []string{"sync.Mutex.Lock", "semacquire", "sync.RWMutex", "chan receive", "chan send", "select"} {
+			if strings.Contains(head, "["+st) {
+				blocked = true
+			}
+		}
+		if !blocked {
+			continue
+		}
+		// the innermost non-runtime, non-sync frame decides who is waiting
+		for _, line := range strings.Split(rest, "\n") {
+			if strings.HasPrefix(line, "\t") || strings.HasPrefix(line, "runtime.") || strings.HasPrefix(line, "sync.") || strings.HasPrefix(line, "internal/") {
+				continue
+			}
+			if strings.HasPrefix(line, "github.com/go-netty/go-netty.") {
+				if len(g) > 1500 {
+					g = g[:1500]
+				}
+				return g
+			}
+			break
+		}
+	}
+	return ""
 }
 
 func TestC13(t *testing.T) {
